@@ -1,7 +1,7 @@
 CONSTANTS
   NK = 6
   NV = 2
-  MaxVer = 5
+  MaxVer = 8
   MaxLen = 40
   NR = 2
   Impl = "iavl"
